@@ -46,6 +46,16 @@ def check_run(archs, threads, fmt, res, s):
             return probs
         if not isinstance(doc, list) or len(doc) != n:
             probs.append(('json-array-length:%s' % tag, 'expected %d elements, got %r' % (n, len(doc) if isinstance(doc, list) else type(doc).__name__)))
+            return probs
+        # each element is its target's report or an error naming the failure: a target whose audit ended with a connection error has an
+        # element that says so, a healthy one has its algorithm lists
+        errors = [e for e in doc if isinstance(e, dict) and e.get('error')]
+        reports = [e for e in doc if isinstance(e, dict) and not e.get('error') and (e.get('kex') or e.get('enc') or e.get('key'))]
+        nfail = sum(1 for s in sts if s == 1)
+        if len(errors) != nfail or len(reports) != n - nfail:
+            odd = [sorted(e)[:6] if isinstance(e, dict) else type(e).__name__ for e in doc if e not in errors and e not in reports]
+            probs.append(('json-element-neither-report-nor-error:%s' % tag, 'targets ending with a connection error: %d, elements carrying an error: %d, elements carrying a report: %d of %d; '
+                          'keys of the other elements: %s' % (nfail, len(errors), len(reports), n, odd[:3])))
         return probs
     blocks = MT.split_text(res.stdout)
     if len(blocks) != n:
